@@ -144,7 +144,7 @@ structure DRest (s : State) : Prop where
   r6 : s.pc = .fetching → (s.curStatus = .pending ∨ s.curStatus = .ready) ∧ s.fetchVersion = s.version ∧
         (s.tickFired = true → s.curStatus = .ready → s.dWoken = true) ∧
         (s.tickFired = true → s.dWoken = false → s.dataReg = true)
-  fresh : s.stolen = false → s.dstate = .clean →
+  fresh : s.viaMemo = true → s.stolen = false → s.dstate = .clean →
         (s.pc = .waiting → s.manualLive = false → s.value = some (fetchFn (inputsNow s))) ∧
         (s.pc ≠ .waiting → s.curInputs = inputsNow s)
 
@@ -153,10 +153,11 @@ structure DMid (s : State) : Prop where
   pcw : s.pc = .waiting
   f1 : s.firstRun = true → s.chan = true ∧
         (s.initialFut = true → s.dstate ≠ .dirty ∧ (s.curStatus = .pending ∨ s.curStatus = .ready) ∧
-          (s.stolen = false → s.dstate = .clean → s.curInputs = inputsNow s)) ∧
+          (s.viaMemo = true → s.stolen = false → s.dstate = .clean → s.curInputs = inputsNow s)) ∧
         (s.initialFut = false → s.dstate = .dirty)
   f2 : s.firstRun = false → s.initialFut = false ∧ s.loading = false ∧
-        (s.stolen = false → s.dstate = .clean → s.manualLive = false → s.value = some (fetchFn (inputsNow s)))
+        (s.viaMemo = true → s.stolen = false → s.dstate = .clean → s.manualLive = false →
+          s.value = some (fetchFn (inputsNow s)))
 
 structure Inv (s : State) : Prop where
   dc : DCore s
@@ -174,8 +175,11 @@ macro "inv_cases" : tactic =>
   `(tactic| (refine ⟨⟨?_, ?_, ?_, ?_, ?_, ?_, ?_, ?_⟩, ⟨?_, ?_, ?_, ?_, ?_⟩, ⟨?_, ?_, ?_, ?_, ?_, ?_, ?_⟩, ⟨?_, ?_, ?_⟩⟩))
 
 theorem Inv.init (c : Cfg) : Inv (init c) := by
-  unfold Async.init
-  inv_cases <;> simp [lastSeen, hasEffect, hasMemo, inputsNow, tickLive] <;> (cases c.eff <;> simp)
+  simp only [Async.init]
+  generalize (c.viaMemo || c.res) = vm
+  generalize c.fx.getD (allSources c.srcs.length) = fx
+  cases vm <;> inv_cases <;> simp [lastSeen, hasEffect, hasMemo, inputsNow, tickLive] <;>
+    (try (cases c.eff <;> simp))
 
 theorem Inv.dMarkDirtySrc {s : State} (h : Inv s) (x : List Val) (hv : s.viaMemo = false ∨ x = s.src) :
     Inv (Async.dMarkDirty { s with src := x }) := by
@@ -238,12 +242,23 @@ theorem Inv.setSrc {s : State} (h : Inv s) (i : Nat) (v : Val) : Inv (setSrc s i
       split
       · exact h1.mMarkDirty
       · exact h1
-    · have h1 := h.dMarkDirtySrc (setAt s.src i v) (.inl (by simpa using hv))
-      dsimp only
+    · dsimp only
       rw [if_neg hv]
-      split
-      · exact h1.mMarkDirty
-      · exact h1
+      have hv' : s.viaMemo = false := by simpa using hv
+      by_cases hi : i ∈ s.dSub
+      · have h1 := h.dMarkDirtySrc (setAt s.src i v) (.inl hv')
+        rw [if_pos hi]
+        split
+        · exact h1.mMarkDirty
+        · exact h1
+      · -- a write to a source the derived has not read: nothing is marked
+        have h1 : Inv { s with src := setAt s.src i v } := by
+          obtain ⟨⟨r1, r2, r7, m1, aw, s1, s2, t1⟩, ⟨r3, r4, r5, r6, fresh⟩, ⟨e1, e2, e3, e5, e6, e7, e8⟩, ⟨w1, w2, w3⟩⟩ := h
+          inv_cases <;> simp_all [lastSeen, inputsNow, tickLive]
+        rw [if_neg hi]
+        split
+        · exact h1.mMarkDirty
+        · exact h1
   · exact h
 
 theorem Inv.complete {s : State} (h : Inv s) (f : Nat) : Inv (complete s f) := by
@@ -362,31 +377,87 @@ theorem Inv.manualSet {s : State} (h : Inv s) (v : Val) : Inv (manualSet s v) :=
     e1 (fun a b => (e2 a b).1) e3 e5 e6 e7 e8 ⟨ew.w1, ew.w2, ew.w3⟩
   refine ⟨hc, ⟨?_, ?_, ?_, ?_, ?_⟩, he.1, he.2⟩ <;> simp_all [inputsNow] <;> grind
 
+/-! the post-`await` reads touch only `run`, `dSub`, `curInputs` -/
+macro "pr_frame" : tactic => `(tactic| (simp only [postReads]))
+@[simp] theorem postReads_eff (s : State) : (postReads s).eff = s.eff := by pr_frame
+@[simp] theorem postReads_src (s : State) : (postReads s).src = s.src := by pr_frame
+@[simp] theorem postReads_value (s : State) : (postReads s).value = s.value := by pr_frame
+@[simp] theorem postReads_loading (s : State) : (postReads s).loading = s.loading := by pr_frame
+@[simp] theorem postReads_dstate (s : State) : (postReads s).dstate = s.dstate := by pr_frame
+@[simp] theorem postReads_version (s : State) : (postReads s).version = s.version := by pr_frame
+@[simp] theorem postReads_chan (s : State) : (postReads s).chan = s.chan := by pr_frame
+@[simp] theorem postReads_reg (s : State) : (postReads s).reg = s.reg := by pr_frame
+@[simp] theorem postReads_dWoken (s : State) : (postReads s).dWoken = s.dWoken := by pr_frame
+@[simp] theorem postReads_pc (s : State) : (postReads s).pc = s.pc := by pr_frame
+@[simp] theorem postReads_firstRun (s : State) : (postReads s).firstRun = s.firstRun := by pr_frame
+@[simp] theorem postReads_initialFut (s : State) : (postReads s).initialFut = s.initialFut := by pr_frame
+@[simp] theorem postReads_fetchVersion (s : State) : (postReads s).fetchVersion = s.fetchVersion := by pr_frame
+@[simp] theorem postReads_nf (s : State) : (postReads s).nf = s.nf := by pr_frame
+@[simp] theorem postReads_curStatus (s : State) : (postReads s).curStatus = s.curStatus := by pr_frame
+@[simp] theorem postReads_fx (s : State) : (postReads s).fx = s.fx := by pr_frame
+@[simp] theorem postReads_viaMemo (s : State) : (postReads s).viaMemo = s.viaMemo := by pr_frame
+@[simp] theorem postReads_smDirty (s : State) : (postReads s).smDirty = s.smDirty := by pr_frame
+@[simp] theorem postReads_smVal (s : State) : (postReads s).smVal = s.smVal := by pr_frame
+@[simp] theorem postReads_res (s : State) : (postReads s).res = s.res := by pr_frame
+@[simp] theorem postReads_rc (s : State) : (postReads s).rc = s.rc := by pr_frame
+@[simp] theorem postReads_smRc (s : State) : (postReads s).smRc = s.smRc := by pr_frame
+@[simp] theorem postReads_once (s : State) : (postReads s).once = s.once := by pr_frame
+@[simp] theorem postReads_isLocal (s : State) : (postReads s).isLocal = s.isLocal := by pr_frame
+@[simp] theorem postReads_tick0 (s : State) : (postReads s).tick0 = s.tick0 := by pr_frame
+@[simp] theorem postReads_tickFired (s : State) : (postReads s).tickFired = s.tickFired := by pr_frame
+@[simp] theorem postReads_dataReg (s : State) : (postReads s).dataReg = s.dataReg := by pr_frame
+@[simp] theorem postReads_pending (s : State) : (postReads s).pending = s.pending := by pr_frame
+@[simp] theorem postReads_susp (s : State) : (postReads s).susp = s.susp := by pr_frame
+@[simp] theorem postReads_idsHeld (s : State) : (postReads s).idsHeld = s.idsHeld := by pr_frame
+@[simp] theorem postReads_mstate (s : State) : (postReads s).mstate = s.mstate := by pr_frame
+@[simp] theorem postReads_mval (s : State) : (postReads s).mval = s.mval := by pr_frame
+@[simp] theorem postReads_mRan (s : State) : (postReads s).mRan = s.mRan := by pr_frame
+@[simp] theorem postReads_eDirty (s : State) : (postReads s).eDirty = s.eDirty := by pr_frame
+@[simp] theorem postReads_eChan (s : State) : (postReads s).eChan = s.eChan := by pr_frame
+@[simp] theorem postReads_eReg (s : State) : (postReads s).eReg = s.eReg := by pr_frame
+@[simp] theorem postReads_eWoken (s : State) : (postReads s).eWoken = s.eWoken := by pr_frame
+@[simp] theorem postReads_eFirst (s : State) : (postReads s).eFirst = s.eFirst := by pr_frame
+@[simp] theorem postReads_eSubD (s : State) : (postReads s).eSubD = s.eSubD := by pr_frame
+@[simp] theorem postReads_eSubM (s : State) : (postReads s).eSubM = s.eSubM := by pr_frame
+@[simp] theorem postReads_eLog (s : State) : (postReads s).eLog = s.eLog := by pr_frame
+@[simp] theorem postReads_aws (s : State) : (postReads s).aws = s.aws := by pr_frame
+@[simp] theorem postReads_stolen (s : State) : (postReads s).stolen = s.stolen := by pr_frame
+@[simp] theorem postReads_manualLive (s : State) : (postReads s).manualLive = s.manualLive := by pr_frame
+@[simp] theorem postReads_lastManual (s : State) : (postReads s).lastManual = s.lastManual := by pr_frame
+@[simp] theorem postReads_notifs (s : State) : (postReads s).notifs = s.notifs := by pr_frame
+@[simp] theorem postReads_panicked (s : State) : (postReads s).panicked = s.panicked := by pr_frame
+@[simp] theorem postReads_readSince (s : State) : (postReads s).readSince = s.readSince := by pr_frame
+@[simp] theorem postReads_coveredCur (s : State) : (postReads s).coveredCur = s.coveredCur := by pr_frame
+@[simp] theorem postReads_msetDuring (s : State) : (postReads s).msetDuring = s.msetDuring := by pr_frame
+theorem postReads_curInputs_memo (s : State) (h : s.viaMemo = true) : (postReads s).curInputs = s.curInputs := by
+  simp [postReads, h]
+
 theorem applyResult_mid {s : State} (dc : DCore s) (ec : ECore s) (ew : EWake s)
     (hv : s.version = s.fetchVersion) (hf : s.firstRun = false) (hi : s.initialFut = false)
-    (hfr : s.stolen = false → s.dstate = .clean → s.curInputs = inputsNow s) : Mid (applyResult s) := by
+    (hfr : s.viaMemo = true → s.stolen = false → s.dstate = .clean → s.curInputs = inputsNow s) :
+    Mid (applyResult s) := by
   obtain ⟨r1, r2, r7, m1, aw, s1, s2, t1⟩ := dc
   obtain ⟨e1, e2, e3, e5, e6, e7, e8⟩ := ec
   dsimp only [applyResult]
-  rw [if_pos hv]
+  rw [if_pos (by simpa using hv)]
   have hc := notifySubs_dcore
-    (s := { s with
-      pending := s.pending - s.idsHeld, idsHeld := 0, curStatus := .done, pc := .waiting, dataReg := false,
-      value := some (fetchFn s.curInputs), manualLive := false })
+    (s := { postReads { s with pending := s.pending - s.idsHeld, idsHeld := 0, curStatus := .done,
+                               pc := .waiting, dataReg := false } with
+      value := some (fetchFn (postReads s).curInputs), manualLive := false })
     r1 r2 (by simp) (by simp) aw s1 s2 t1
   have he := notifySubs_effect
-    (s := { s with
-      pending := s.pending - s.idsHeld, idsHeld := 0, curStatus := .done, pc := .waiting, dataReg := false,
-      value := some (fetchFn s.curInputs), manualLive := false })
+    (s := { postReads { s with pending := s.pending - s.idsHeld, idsHeld := 0, curStatus := .done,
+                               pc := .waiting, dataReg := false } with
+      value := some (fetchFn (postReads s).curInputs), manualLive := false })
     e1 (fun a b => (e2 a b).1) e3 e5 e6 e7 e8 ⟨ew.w1, ew.w2, ew.w3⟩
-  refine ⟨hc, ⟨?_, ?_, ?_⟩, he.1, he.2⟩ <;> simp_all [inputsNow]
+  refine ⟨hc, ⟨?_, ?_, ?_⟩, he.1, he.2⟩ <;> simp_all [inputsNow, postReads_curInputs_memo]
 
 @[simp] theorem applyResult_chan (s : State) : (applyResult s).chan = s.chan := by
-  simp only [applyResult]; split <;> simp
+  simp only [applyResult, postReads]; split <;> simp
 @[simp] theorem applyResult_firstRun (s : State) : (applyResult s).firstRun = s.firstRun := by
-  simp only [applyResult]; split <;> simp
+  simp only [applyResult, postReads]; split <;> simp
 @[simp] theorem applyResult_dWoken (s : State) : (applyResult s).dWoken = s.dWoken := by
-  simp only [applyResult]; split <;> simp
+  simp only [applyResult, postReads]; split <;> simp
 
 /-! ## the derived's task -/
 
@@ -481,7 +552,10 @@ theorem fetchState_cases (s : State) :
         smVal := (if s.smDirty then s.src else s.smVal), smRc := (if s.smDirty then s.rc else s.smRc),
         smDirty := false, initialFut := false,
         curStatus := .pending, nf := s.nf + 1,
-        curInputs := (if s.viaMemo then (if s.smDirty then s.src else s.smVal) else s.src),
+        curInputs := (if s.viaMemo then (if s.smDirty then s.src else s.smVal)
+                      else (Run.execAll s.src s.fx.sync {}).vals),
+        run := (if s.viaMemo then s.run else Run.execAll s.src s.fx.sync {}),
+        dSub := s.dSub ++ (if s.viaMemo then s.run else Run.execAll s.src s.fx.sync {}).log.map (·.1),
         firstRun := false, loading := true, version := s.version + 1, fetchVersion := s.version + 1,
         idsHeld := s.susp, pending := s.pending + s.susp, susp := 0, coveredCur := s.readSince,
         readSince := false, msetDuring := false, dataReg := false,
@@ -490,7 +564,8 @@ theorem fetchState_cases (s : State) :
         pc := .fetching }) := by
   by_cases hd : s.dstate = .dirty <;> by_cases hs : s.smDirty = true <;>
     by_cases hi : s.initialFut = true <;> by_cases hch : s.smVal = s.src <;> by_cases hrc : s.smRc = s.rc <;>
-    simp [fetchState, chk, dNeedsRerun, smUpdate, dropInitial, startFetch, inputsNow, hd, hs, hi, hch, hrc]
+    by_cases hvm : s.viaMemo = true <;>
+    simp [fetchState, chk, dNeedsRerun, smUpdate, dropInitial, startFetch, inputsNow, hd, hs, hi, hch, hrc, hvm]
 
 theorem chk_false (s : State) (h : (chk s).2 = false) :
     s.dstate ≠ .dirty ∧ (s.smDirty = true → s.smVal = s.src ∧ s.smRc = s.rc) ∧
@@ -507,7 +582,7 @@ theorem chk_false (s : State) (h : (chk s).2 = false) :
 theorem Mid.toFetch {s : State} (h : Mid s) (hn : (chk s).2 = true ∨ (chk s).1.firstRun = true) :
     DCore (fetchState s) ∧ ECore (fetchState s) ∧ EWake (fetchState s) ∧
     ((fetchState s).curStatus = .pending ∨ (fetchState s).curStatus = .ready) ∧
-    ((fetchState s).stolen = false → (fetchState s).dstate = .clean →
+    ((fetchState s).viaMemo = true → (fetchState s).stolen = false → (fetchState s).dstate = .clean →
       (fetchState s).curInputs = inputsNow (fetchState s)) := by
   obtain ⟨⟨r1, r2, r7, m1, aw, s1, s2, t1⟩, ⟨pcw, f1, f2⟩, ⟨e1, e2, e3, e5, e6, e7, e8⟩, ⟨w1, w2, w3⟩⟩ := h
   have aw' : ∀ a ∈ s.aws, AwOK true a := fun a ha => (aw a ha).loading
@@ -602,31 +677,44 @@ theorem Mid.loop {s : State} (h : Mid s) : Inv (dLoop 3 s) := by
   · rename_i hc
     exact h0 (by simpa using hc)
 
+/-- the state in which the loop is entered on the task's first poll -/
+def enterStart (s : State) : State :=
+  { (if s.dstate = .dirty then { { s with dWoken := false } with initialFut := false, curStatus := .dropped }
+     else { s with dWoken := false }) with pc := .waiting }
+
+theorem Inv.midStart {s : State} (h : Inv s) (hpc : s.pc = .start) : Mid (enterStart s) := by
+  obtain ⟨⟨r1, r2, r7, m1, aw, s1, s2, t1⟩, ⟨r3, r4, r5, r6, fresh⟩, ⟨e1, e2, e3, e5, e6, e7, e8⟩, ⟨w1, w2, w3⟩⟩ := h
+  unfold enterStart
+  refine ⟨⟨?_, ?_, ?_, ?_, ?_, ?_, ?_, ?_⟩, ⟨?_, ?_, ?_⟩, ⟨?_, ?_, ?_, ?_, ?_, ?_, ?_⟩, ⟨?_, ?_, ?_⟩⟩ <;>
+    (simp only [lastSeen, inputsNow, tickLive] at *; (try split)) <;> simp_all
+
+theorem Inv.midWaiting {s : State} (h : Inv s) (hpc : s.pc = .waiting) : Mid { s with dWoken := false } := by
+  obtain ⟨⟨r1, r2, r7, m1, aw, s1, s2, t1⟩, ⟨r3, r4, r5, r6, fresh⟩, ⟨e1, e2, e3, e5, e6, e7, e8⟩, ⟨w1, w2, w3⟩⟩ := h
+  refine ⟨⟨?_, ?_, ?_, ?_, ?_, ?_, ?_, ?_⟩, ⟨?_, ?_, ?_⟩, ⟨?_, ?_, ?_, ?_, ?_, ?_, ?_⟩, ⟨?_, ?_, ?_⟩⟩ <;>
+    simp_all [lastSeen, inputsNow, tickLive]
+
+theorem Inv.midFetched {s : State} (h : Inv s) (hpc : s.pc = .fetching) :
+    Mid (applyResult { s with dWoken := false }) := by
+  obtain ⟨⟨r1, r2, r7, m1, aw, s1, s2, t1⟩, ⟨r3, r4, r5, r6, fresh⟩, ⟨e1, e2, e3, e5, e6, e7, e8⟩, ⟨w1, w2, w3⟩⟩ := h
+  apply applyResult_mid
+  · exact ⟨r1, r2, r7, m1, aw, s1, s2, t1⟩
+  · exact ⟨e1, e2, e3, e5, e6, e7, e8⟩
+  · exact ⟨w1, w2, w3⟩
+  all_goals simp_all [inputsNow]
+
 theorem Inv.pollD {s : State} (h : Inv s) : Inv (pollD s) := by
   unfold Async.pollD
-  obtain ⟨⟨r1, r2, r7, m1, aw, s1, s2, t1⟩, ⟨r3, r4, r5, r6, fresh⟩, ⟨e1, e2, e3, e5, e6, e7, e8⟩, ⟨w1, w2, w3⟩⟩ := h
   dsimp only
   split
-  · -- first poll
-    rename_i hpc
-    apply Mid.loop
-    refine ⟨⟨?_, ?_, ?_, ?_, ?_, ?_, ?_, ?_⟩, ⟨?_, ?_, ?_⟩, ⟨?_, ?_, ?_, ?_, ?_, ?_, ?_⟩, ⟨?_, ?_, ?_⟩⟩ <;>
-      (simp only [lastSeen, inputsNow, tickLive] at *; (try split)) <;> simp_all
   · rename_i hpc
-    apply Mid.loop
-    refine ⟨⟨?_, ?_, ?_, ?_, ?_, ?_, ?_, ?_⟩, ⟨?_, ?_, ?_⟩, ⟨?_, ?_, ?_, ?_, ?_, ?_, ?_⟩, ⟨?_, ?_, ?_⟩⟩ <;>
-      simp_all [lastSeen, inputsNow, tickLive]
+    exact (h.midStart hpc).loop
+  · rename_i hpc
+    exact (h.midWaiting hpc).loop
   · rename_i hpc
     split
-    · apply Mid.loop
-      apply applyResult_mid
-      · exact ⟨r1, r2, r7, m1, aw, s1, s2, t1⟩
-      · exact ⟨e1, e2, e3, e5, e6, e7, e8⟩
-      · exact ⟨w1, w2, w3⟩
-      all_goals simp_all [inputsNow]
-    · inv_cases <;> simp_all [lastSeen, inputsNow, tickLive]
-
-
+    · exact (h.midFetched hpc).loop
+    · obtain ⟨⟨r1, r2, r7, m1, aw, s1, s2, t1⟩, ⟨r3, r4, r5, r6, fresh⟩, ⟨e1, e2, e3, e5, e6, e7, e8⟩, ⟨w1, w2, w3⟩⟩ := h
+      inv_cases <;> simp_all [lastSeen, inputsNow, tickLive]
 
 /-! ## the effect's task -/
 
@@ -671,6 +759,9 @@ structure Frame (s s' : State) : Prop where
   tick0 : s'.tick0 = s.tick0
   tickFired : s'.tickFired = s.tickFired
   dataReg : s'.dataReg = s.dataReg
+  run : s'.run = s.run
+  dSub : s'.dSub = s.dSub
+  fx : s'.fx = s.fx
   dstate : s'.dstate = s.dstate
   stolen : s'.stolen = s.stolen
 
@@ -678,8 +769,8 @@ theorem Frame.refl (s : State) : Frame s s := by
   constructor <;> simp
 
 theorem Frame.trans {a b c : State} (h1 : Frame a b) (h2 : Frame b c) : Frame a c := by
-  obtain ⟨_, _, _, _, _, _, _, _, _, _, _, _, _, _, _, _, _, _, _, _, _, _, _, _, _, _, _, _, _, _, _, _, _, _, _, _, _, _, _⟩ := h1
-  obtain ⟨_, _, _, _, _, _, _, _, _, _, _, _, _, _, _, _, _, _, _, _, _, _, _, _, _, _, _, _, _, _, _, _, _, _, _, _, _, _, _⟩ := h2
+  obtain ⟨_, _, _, _, _, _, _, _, _, _, _, _, _, _, _, _, _, _, _, _, _, _, _, _, _, _, _, _, _, _, _, _, _, _, _, _, _, _, _, _, _, _⟩ := h1
+  obtain ⟨_, _, _, _, _, _, _, _, _, _, _, _, _, _, _, _, _, _, _, _, _, _, _, _, _, _, _, _, _, _, _, _, _, _, _, _, _, _, _, _, _, _⟩ := h2
   constructor <;> simp_all
 
 theorem Frame.dAsSource (s : State) : Frame s (dAsSource s).1 := by
@@ -772,7 +863,7 @@ theorem effUpdate_inv {s : State} (dc : DCore s) (dr : DRest s)
     have hfr := Frame.effAny L s
     generalize effAny L s = r at *
     obtain ⟨f1, f2, f3, f4, f5, f6, f7, f8, f9, f10, f11, f12, f13, f14, f19, f20, f21,
-      f22, f23, f24, f25, f26, g1, g2, g3, g6, g7, k1, k2, k3, k4, k5, k6, n1, n2, n3, n4, g4, g5⟩ := hfr
+      f22, f23, f24, f25, f26, g1, g2, g3, g6, g7, k1, k2, k3, k4, k5, k6, n1, n2, n3, n4, u1, u2, u3, g4, g5⟩ := hfr
     refine ⟨⟨?_, ?_, ?_, ?_, ?_, ?_, ?_, ?_⟩, ⟨?_, ?_, ?_, ?_, ?_⟩, ?_, ?_, ?_, ?_, ?_, ?_, ?_, ?_, ?_⟩ <;>
       simp_all [lastSeen, inputsNow, tickLive]
 
